@@ -19,6 +19,8 @@ import (
 type replayFile struct {
 	Note string `json:"note,omitempty"`
 	Case *Case  `json:"case"`
+	// Mode: "" CreateVP + Match, "array" CreateVPArray + merged submission, "msr" / "msr-apply" MatchSubmissionRequirement
+	Mode string `json:"mode,omitempty"`
 }
 
 func descByID(p Defn, id int) (Desc, bool) {
@@ -287,6 +289,9 @@ type runner struct {
 	e     *env
 	tr    *hx.Trace
 	coqN  int
+	coqA  int
+	coqM  int
+	n     int
 	maxCq int
 }
 
@@ -323,7 +328,7 @@ func (r *runner) do(kind string, c Case, withCoq bool) {
 		sortAttrs(c.Creds[i].Attrs)
 	}
 
-	o, err := r.e.runCase(c)
+	o, err := r.e.runCase(c, false)
 	if err != nil {
 		// the harness could not build or project the case: a defect of the generator/harness, reported loudly
 		r.tr.Put(&hx.Record{Kind: kind, Case: replayFile{Case: &c}, Oracle: "fail", Sig: "harness-error",
@@ -366,6 +371,123 @@ func (r *runner) do(kind string, c Case, withCoq bool) {
 	}
 
 	rec.Dist = distOf(c, o)
+	r.tr.Put(rec)
+
+	// the other public entry points of the same exchange, on a third of the cases
+	r.n++
+
+	if r.n%4 == 0 && o.Create != "other" {
+		r.doArray(kind, c, withCoq)
+	}
+
+	if r.n%4 == 2 {
+		r.doMSR(kind, c, r.n%8 == 2, withCoq)
+	}
+}
+
+// doArray: CreateVPArray (one presentation per credential, one merged submission) and Match with that submission.
+func (r *runner) doArray(kind string, c Case, withCoq bool) {
+	o, err := r.e.runCase(c, true)
+	if err != nil {
+		r.tr.Put(&hx.Record{Kind: kind + "/array", Case: replayFile{Case: &c, Mode: "array"}, Oracle: "fail", Sig: "harness-error",
+			Detail: err.Error(), Class: "harness-error"})
+
+		return
+	}
+
+	sig, detail := judge(c, o)
+	rec := &hx.Record{Kind: kind + "/array", Case: replayFile{Case: &c, Mode: "array"}, Observed: o, Class: "array/" + classOf(c, o),
+		Trivial: o.Create != "vp", Dist: []string{"entry:CreateVPArray+merged-submission"}}
+
+	if sig != "" {
+		rec.Oracle, rec.Sig, rec.Detail = "fail", sig, "CreateVPArray + merged submission: "+detail
+	}
+
+	if withCoq && r.coqA < r.maxCq/4 && o.Create != "other" {
+		rec.Coq = "A" + coqCase(c, o)[1:]
+		r.coqA++
+	}
+
+	r.tr.Put(rec)
+}
+
+// doMSR: MatchSubmissionRequirement, with and without WithSelectiveDisclosureApply.
+func (r *runner) doMSR(kind string, c Case, apply bool, withCoq bool) {
+	mode := "msr"
+	if apply {
+		mode = "msr-apply"
+	}
+
+	o, err := r.e.runMSR(c, apply)
+	if err != nil {
+		r.tr.Put(&hx.Record{Kind: kind + "/" + mode, Case: replayFile{Case: &c, Mode: mode}, Oracle: "fail", Sig: "harness-error",
+			Detail: err.Error(), Class: "harness-error"})
+
+		return
+	}
+
+	rec := &hx.Record{Kind: kind + "/" + mode, Case: replayFile{Case: &c, Mode: mode}, Observed: o,
+		Class: fmt.Sprintf("%s/%s/%d", mode, shape(c), len(o.Descs)), Trivial: o.Err != "", Dist: []string{"entry:MatchSubmissionRequirement"}}
+
+	out := "None"
+
+	if o.Err == "" {
+		var items []string
+
+		for _, md := range o.Descs {
+			d, ok := descByID(c.Def, md.ID)
+			if !ok {
+				rec.Oracle, rec.Sig, rec.Detail = "fail", "msr-reports-unknown-descriptor", fmt.Sprintf("d%d", md.ID)
+
+				break
+			}
+
+			for i, got := range md.Creds {
+				src := md.Src[i]
+
+				switch {
+				case src < 0 || src >= len(c.Creds):
+					rec.Oracle, rec.Sig, rec.Detail = "fail", "msr-credential-of-unknown-origin", fmt.Sprintf("d%d[%d]", md.ID, i)
+				case !refSatisfies(c.Def, d, c.Creds[src]):
+					rec.Oracle, rec.Sig = "fail", "msr-reports-unsatisfying-credential"
+					rec.Detail = fmt.Sprintf("holder credential #%d is reported under d%d, which it does not satisfy", src, md.ID)
+				default:
+					if why := derivedFrom(got, c.Creds[src], d); why != "" {
+						rec.Oracle, rec.Sig, rec.Detail = "fail", "msr-alters-credential", fmt.Sprintf("d%d[%d]: %s", md.ID, i, why)
+						if hasBBS(c.Creds[src]) && strings.HasSuffix(why, "is shown as null") {
+							rec.Sig = "holder-alters-credential/bbs-derived-non-string-member-null"
+						}
+					} else if apply {
+						if sg, why := limitedOK(got, md.Disc[i], d); sg != "" {
+							if c.Creds[src].MapSubject {
+								sg += "/subject-held-as-map"
+							} else {
+								sg = "msr:" + sg
+							}
+
+							rec.Oracle, rec.Sig, rec.Detail = "fail", sg, fmt.Sprintf("d%d[%d]: %s", md.ID, i, why)
+						} else if why := readableSatisfies(got, d); why != "" {
+							rec.Oracle, rec.Sig, rec.Detail = "fail", "msr-credential-not-showing-requested-field", fmt.Sprintf("d%d[%d]: %s", md.ID, i, why)
+						}
+					}
+				}
+			}
+
+			items = append(items, fmt.Sprintf("(%s, %s)", hx.CoqN(md.ID), coqCreds(md.Creds)))
+		}
+
+		out = "(Some " + hx.CoqList(items) + ")"
+	} else if !strings.Contains(o.Err, "no descriptors for from") {
+		// a failure inside limit disclosure (BBS+ derivation): outside the model
+		withCoq = false
+	}
+
+	if withCoq && r.coqM < r.maxCq/4 {
+		rec.Coq = fmt.Sprintf("Mx {| m_def := %s; m_creds := %s; m_apply := %s; m_out := %s |}", coqDefn(c.Def), coqCreds(c.Creds),
+			hx.CoqBool(apply), out)
+		r.coqM++
+	}
+
 	r.tr.Put(rec)
 }
 
@@ -517,14 +639,35 @@ func main() {
 		must(err)
 
 		var rf replayFile
-		must(json.Unmarshal(b, &rf))
+
+		// a replay file written by bin/check wraps the record's case ({"case": {"case": ..., "mode": ...}});
+		// corpus files carry the case directly
+		var wrapped struct {
+			Case *replayFile `json:"case"`
+		}
+
+		if json.Unmarshal(b, &wrapped) == nil && wrapped.Case != nil && wrapped.Case.Case != nil {
+			rf = *wrapped.Case
+		} else {
+			must(json.Unmarshal(b, &rf))
+		}
 
 		if rf.Case == nil {
 			fmt.Fprintln(os.Stderr, "replay file has no case")
 			os.Exit(2)
 		}
 
-		r.do("replay", *rf.Case, true)
+		switch rf.Mode {
+		case "array":
+			r.doArray("replay", *rf.Case, true)
+		case "msr":
+			r.doMSR("replay", *rf.Case, false, true)
+		case "msr-apply":
+			r.doMSR("replay", *rf.Case, true, true)
+		default:
+			r.n = 0 // no extra entry points on a replay
+			r.do("replay", *rf.Case, true)
+		}
 
 		return
 	}
